@@ -17,7 +17,10 @@ PROPERTY = "C03"
 TRACE = "T_GeomValidate"
 ENUM = {
     "quick":    [dict(module="MC_GeomValidate", cfg="MC_GeomValidate_quick.cfg", workers=8)],
-    "thorough": [dict(module="MC_GeomValidate", cfg="MC_GeomValidate_thorough.cfg", workers=16, coverage=True, heap="8g")],
+    # TLC prints interim coverage reports every minute and the engine takes an interim zero for a dead action, so the
+    # coverage guard runs on the small sub-universe "cov" (contained in both tiers: an action taken there is taken in them)
+    "thorough": [dict(module="MC_GeomValidate", cfg="MC_GeomValidate_thorough.cfg", workers=16, heap="8g"),
+                 dict(module="MC_GeomValidate", cfg="MC_GeomValidate_cov.cfg", workers=4, coverage=True, expect_cases=False)],
 }
 POOL = 12
 CHUNK = 2500
@@ -238,7 +241,7 @@ def _edit(rng, c):
 
 
 def random_cases(rng, tier):
-    n = 1500 if tier == "quick" else 20000
+    n = 1500 if tier == "quick" else 10000
     for _ in range(n):
         kind = rng.choice(KINDS)
         c = _valid(rng, kind)
